@@ -192,6 +192,7 @@ class TensorEval:
                 v = self.ev(f, st.value, env)
                 if isinstance(t, ast.Subscript):
                     base = self.ev(f, t.value, env)
+                    base = self._objectify(base, v, t.value, env)
                     base[self.index(f, t.slice, env)] = v
                     continue
                 if isinstance(t, ast.Name):
@@ -242,16 +243,39 @@ class TensorEval:
             if isinstance(st, ast.AugAssign) and isinstance(st.target, ast.Subscript):
                 base = self.ev(f, st.target.value, env)
                 i = self.index(f, st.target.slice, env)
-                base[i] = self.binop(st.op, base[i], self.ev(f, st.value, env))
+                nv_ = self.binop(st.op, base[i], self.ev(f, st.value, env))
+                base = self._objectify(base, nv_, st.target.value, env)
+                base[i] = nv_
                 continue
             raise Unknown(f'statement `{norm(st)[:50]}`')
+
+    def _objectify(self, base, v, target, env):
+        """a symbolic / provenance cell stored into a concrete integer buffer bound to a plain local: the buffer becomes an object
+        array (the local is rebound; aliases of a concrete buffer are not followed, so only a plain name qualifies)"""
+        sym = isinstance(v, np.ndarray) and v.dtype == object or (not isinstance(v, (int, float, bool, np.ndarray, np.generic)) and v is not None)
+        if sym and isinstance(base, np.ndarray) and base.dtype != object and isinstance(target, ast.Name) and target.id in env:
+            nb = base.astype(object)
+            env[target.id] = nb
+            return nb
+        return base
 
     def bind_target(self, t, v, env):
         if isinstance(t, ast.Name):
             env[t.id] = v
         elif isinstance(t, (ast.Tuple, ast.List)):
             vs = list(v) if isinstance(v, (list, tuple)) or (np is not None and isinstance(v, np.ndarray)) else None
-            if vs is None or len(vs) != len(t.elts):
+            stars = [i_ for i_, t_ in enumerate(t.elts) if isinstance(t_, ast.Starred)]
+            if vs is not None and len(stars) == 1 and len(vs) >= len(t.elts) - 1:
+                # `first, *rest = seq`
+                k_ = stars[0]
+                n_after = len(t.elts) - k_ - 1
+                for t_, v_ in zip(t.elts[:k_], vs[:k_]):
+                    self.bind_target(t_, v_, env)
+                self.bind_target(t.elts[k_].value, list(vs[k_:len(vs) - n_after]), env)
+                for t_, v_ in zip(t.elts[k_ + 1:], vs[len(vs) - n_after:] if n_after else []):
+                    self.bind_target(t_, v_, env)
+                return
+            if vs is None or len(vs) != len(t.elts) or stars:
                 raise Unknown('unpacking')
             for t_, v_ in zip(t.elts, vs):
                 self.bind_target(t_, v_, env)
@@ -278,6 +302,28 @@ class TensorEval:
             return {ast.BitAnd: operator.and_, ast.BitOr: operator.or_, ast.BitXor: operator.xor}[type(op)](l, r)
         if isinstance(op, (ast.LShift, ast.RShift)) and all(isinstance(x, (int, np.integer)) or (isinstance(x, np.ndarray) and x.dtype != object and x.dtype.kind in 'iu') for x in (l, r)):
             return (l << r) if isinstance(op, ast.LShift) else (l >> r)
+        if isinstance(op, (ast.LShift, ast.RShift)) and isinstance(r, (int, np.integer)) and not isinstance(r, bool) and r >= 0:
+            # provenance words (sa.bitvec cells) shifted by a constant; the zero cells of a fresh buffer stay zero
+            from .bitvec import BV
+            left = isinstance(op, ast.LShift)
+
+            def sh(x):
+                if isinstance(x, BV):
+                    return (x << int(r)) if left else (x >> int(r))
+                if isinstance(x, (int, np.integer)):
+                    return (int(x) << int(r)) if left else (int(x) >> int(r))
+                if isinstance(x, (bool, np.bool_)):
+                    return (int(x) << int(r)) if left else (int(x) >> int(r))
+                if isinstance(x, Q):
+                    try:
+                        return sh(BV.lift(x))
+                    except Exception:
+                        raise Unknown('shift of a symbolic value')
+                raise Unknown('shift of a symbolic value')
+            if isinstance(l, np.ndarray) and l.dtype == object:
+                return np.frompyfunc(sh, 1, 1)(l)
+            if isinstance(l, (BV, Q)):
+                return sh(l)
         if isinstance(op, (ast.FloorDiv, ast.Mod)) and isinstance(l, (int, np.integer)) and isinstance(r, (int, np.integer)) and r != 0:
             return l // r if isinstance(op, ast.FloorDiv) else l % r
         if isinstance(op, ast.MatMult):
